@@ -157,7 +157,7 @@ fn run_subject<Cfg: GenericConfig<D, F = F>>(ctx: &Ctx, a: &Accepted<Cfg>, leaf_
         });
     });
     // every list node x structural mutation
-    let arr_muts = [ArrMut::DropLast, ArrMut::Empty, ArrMut::DupLast, ArrMut::SwapFirstTwo, ArrMut::AppendFirst];
+    let arr_muts = [ArrMut::DropLast, ArrMut::Empty, ArrMut::DupLast, ArrMut::SwapFirstTwo, ArrMut::AppendFirst, ArrMut::AppendZero];
     let arr_cases: Vec<(usize, ArrMut)> = (0..sh.arrays.len()).flat_map(|i| arr_muts.iter().map(move |m| (i, *m))).collect();
     par_for_chunk(arr_cases.len(), 16, |k| {
         let (ai, m) = arr_cases[k];
@@ -381,6 +381,19 @@ pub fn run(ctx: &Ctx) -> i32 {
         make_accepted::<PC>(ctx, &format!("{}@q8a{}", prog.name, 1 + i % 2), prog, &ivs[0], &c, ctx.seed + 1)
     });
     pc_subjects.extend(made.into_iter().flatten());
+    // few public inputs with a zero tail: the public-input hash has no length padding, so only the
+    // explicit count check separates [15, 0] from [15] and from [15, 0, 0]
+    {
+        use Op::*;
+        let prog = Program::new("few_pis_zero_tail", vec![Ty::B, Ty::B], vec![Mul(0, 1), IsEqual(0, 1)]);
+        if let Some(a) = make_accepted::<PC>(ctx, "few_pis_zero_tail@q8", &prog, &[3, 5], &base, ctx.seed + 5) {
+            pc_subjects.push(a);
+        }
+        let prog = Program::new("one_pi_zero", vec![Ty::B, Ty::B], vec![Sub(0, 1)]);
+        if let Some(a) = make_accepted::<PC>(ctx, "one_pi_zero@q8", &prog, &[7, 7], &base, ctx.seed + 6) {
+            pc_subjects.push(a);
+        }
+    }
     // salted / blinded oracle
     {
         let mut zk = floor_config(8);
